@@ -1577,10 +1577,10 @@ class SQLModel:
             )
         for ci in using_left:
             if ci not in common:
-                terms[ci] = None
+                terms[ci] = left_qqn + "." + self.quote_identifier(ci)
         for ci in using_right:
             if ci not in common:
-                terms[ci] = None
+                terms[ci] = right_qqn + "." + self.quote_identifier(ci)
         on_terms = []
         if len(join_node.on_a) > 0:
             on_terms = ["ON " + self.on_start] + self._indent_and_sep_terms(
